@@ -70,6 +70,7 @@ func (w *WorkerPool) Start() *WorkerPool {
 		w.ShutdownComplete.Wait()
 	}
 
+	verifStartWindow(w)
 	w.mutex.Lock()
 	defer w.mutex.Unlock()
 
